@@ -280,11 +280,20 @@ func genC18(r *Rng, n int, tier string) {
 			// bar monotonicity pair: scale type 1, value hidden, v1 <= v2, range > 0
 			lo := int32(r.Range(-500, 500))
 			hi := lo + int32(r.Range(1, 3000))
+			big := r.Chance(30) // very large ranges / values: (value-low)*width exceeds 32 bits
+			if big {
+				lo = int32(r.Pick(0, -1000000, 5))
+				hi = lo + int32(r.Pick(2000000000, 40000000, 1000000000))
+			}
 			t.Formatting = 7
 			t.PairMode = 0
 			t.Scale = &rwp.HWCText_ScaleM{ScaleType: 1, RangeLow: lo, RangeHigh: hi, LimitLow: lo, LimitHigh: hi}
 			v1 := lo + int32(r.Range(-20, 3100))
 			v2 := v1 + int32(r.Range(0, 600))
+			if big {
+				v1 = lo + int32(r.Range(0, 100)*1000000)
+				v2 = v1 + int32(r.Range(0, 60)*1000000)
+			}
 			t.IntegerValue = v1
 			args := append([]interface{}{v2}, tileArgs(t, w, h, shrink, border)...)
 			emit("tile.bar", args...)
